@@ -108,11 +108,17 @@ fn forward(m: &RLib, ctx: &mut Ctx) -> Result<(), String> {
                     return Err(format!("instance angle came back as {}", a));
                 }
             }
+            let (mut wi, mut gi) = (wi, gi);
+            wi.sort();
+            gi.sort();
             if wi != gi {
                 return Err(format!("cell {}: instances (name, target, location, reflection, rotation) {:?} came back as {:?}", c.name, wi, gi));
             }
             let wa: Vec<(String, P)> = c.annotations.clone();
             let ga: Vec<(String, P)> = layout.annotations.iter().map(|a| (a.string.clone(), (a.loc.x as i64, a.loc.y as i64))).collect();
+            let (mut wa, mut ga) = (wa, ga);
+            wa.sort();
+            ga.sort();
             if wa != ga {
                 return Err(format!("cell {}: annotations {:?} came back as {:?}", c.name, wa, ga));
             }
